@@ -248,6 +248,33 @@ func verifLexParse(text string) (abs verifLexObj, errText string) {
 	return a, ""
 }
 
+// verifLexDiff descends into want/got while they have the same shape and returns the first differing pair.
+func verifLexDiff(want, got verifLexObj) (verifLexObj, verifLexObj) {
+	if want["k"] != got["k"] {
+		return want, got
+	}
+	switch want["k"] {
+	case "arr", "dict":
+		wv, gv := want["v"].([]any), got["v"].([]any)
+		if len(wv) != len(gv) {
+			return want, got
+		}
+		for i := range wv {
+			w, g := wv[i].(verifLexObj), gv[i].(verifLexObj)
+			if want["k"] == "dict" {
+				if verifLexCanon(w["key"]) != verifLexCanon(g["key"]) {
+					return want, got
+				}
+				w, g = w["val"].(verifLexObj), g["val"].(verifLexObj)
+			}
+			if verifLexCanon(w) != verifLexCanon(g) {
+				return verifLexDiff(w, g)
+			}
+		}
+	}
+	return want, got
+}
+
 func verifLexCanon(v any) string {
 	b, _ := json.Marshal(v)
 	return string(b)
@@ -284,6 +311,7 @@ func verifLexReplay(t *testing.T, in, out string) {
 	sc := bufio.NewScanner(f)
 	sc.Buffer(make([]byte, 1<<20), 1<<26)
 	n, bad, composite, differ := 0, 0, 0, 0
+	perClass := map[string]int{}
 	paths := [2]string{"PDFString", "appendPDFObject"}
 	for sc.Scan() {
 		if len(sc.Bytes()) == 0 {
@@ -310,18 +338,21 @@ func verifLexReplay(t *testing.T, in, out string) {
 			differ++
 		}
 		for p := 0; p < 2; p++ {
-			what, got := "", any(nil)
+			what, got, class := "", any(nil), ""
 			if errs[p] != "" {
-				what = "write failed: " + errs[p]
+				what, class = "write failed: "+errs[p], "write-error"
 			} else if abs, e := verifLexParse(texts[p]); e != "" {
-				what = e
+				what, class = e, "parse-error:"+strings.SplitN(e, ",", 2)[0]
 			} else if verifLexCanon(abs) != want {
 				what, got = "read back a different object", abs
+				dw, dg := verifLexDiff(c.Norm, abs)
+				class = fmt.Sprintf("%v->%v", dw["k"], dg["k"])
 			}
 			if what != "" {
 				bad++
-				if bad <= 300 {
-					b, _ := json.Marshal(map[string]any{"path": paths[p], "what": what, "o": c.O, "norm": c.Norm, "got": got, "text": verifLexInts([]byte(texts[p]))})
+				perClass[class]++
+				if perClass[class] <= 40 {
+					b, _ := json.Marshal(map[string]any{"path": paths[p], "what": what, "class": class, "o": c.O, "norm": c.Norm, "got": got, "text": verifLexInts([]byte(texts[p]))})
 					w.Write(b)
 					w.WriteByte('\n')
 				}
@@ -331,8 +362,8 @@ func verifLexReplay(t *testing.T, in, out string) {
 	if err := sc.Err(); err != nil {
 		t.Fatal(err)
 	}
-	s, _ := json.Marshal(map[string]any{"cases": n, "bad": bad, "composite": composite, "paths_differ": differ})
-	fmt.Println("SUMMARY " + string(s))
+	s, _ := json.Marshal(map[string]any{"cases": n, "bad": bad, "composite": composite, "paths_differ": differ, "classes": perClass})
+	fmt.Println("SUMMARY-REPLAY " + string(s))
 }
 
 // ---- random deeper trees (code -> TLC)
@@ -408,7 +439,12 @@ func verifLexRandTree(r *rand.Rand, depth int) verifLexObj {
 		return verifLexObj{"k": "int", "s": strconv.FormatInt(i, 10)}
 	case 3, 4:
 		if r.Intn(8) == 0 {
-			f := math.Ldexp(1+r.Float64(), 50+r.Intn(900))
+			// mostly 2^50..2^63 (written with up to 19 integer digits), sometimes far beyond
+			ex := 50 + r.Intn(13)
+			if r.Intn(8) == 0 {
+				ex = 63 + r.Intn(900)
+			}
+			f := math.Ldexp(1+r.Float64(), ex)
 			if r.Intn(2) == 0 {
 				f = -f
 			}
@@ -500,7 +536,7 @@ func verifLexRandom(t *testing.T, out string, n int, seed int64) {
 		verifLexKinds(o, kinds)
 	}
 	s, _ := json.Marshal(map[string]any{"cases": n, "distinct": len(distinct), "nested": deep, "kinds": len(kinds)})
-	fmt.Println("SUMMARY " + string(s))
+	fmt.Println("SUMMARY-RANDOM " + string(s))
 }
 
 func TestVerifLexObj(t *testing.T) {
@@ -512,6 +548,11 @@ func TestVerifLexObj(t *testing.T) {
 		n, _ := strconv.Atoi(os.Getenv("VERIF_LEX_N"))
 		seed, _ := strconv.ParseInt(os.Getenv("VERIF_LEX_SEED"), 10, 64)
 		verifLexRandom(t, os.Getenv("VERIF_LEX_OUT"), n, seed)
+	case "both":
+		verifLexReplay(t, os.Getenv("VERIF_LEX_IN"), os.Getenv("VERIF_LEX_OUT"))
+		n, _ := strconv.Atoi(os.Getenv("VERIF_LEX_N"))
+		seed, _ := strconv.ParseInt(os.Getenv("VERIF_LEX_SEED"), 10, 64)
+		verifLexRandom(t, os.Getenv("VERIF_LEX_OUT2"), n, seed)
 	default:
 		t.Skip("VERIF_LEX_MODE not set")
 	}
